@@ -65,6 +65,16 @@ def gen_history(rng, hid, h, f, maxlen, err_draws=1):
             ops.append({"op": "ints", "n": n, "size": size, "nonce": le(rng.choice(NONCES + [rng.randrange(2**64)]), 8)})
         else:
             ops.append({"op": "lz", "nonce": le(rng.choice(NONCES + [rng.randrange(2**64), rng.randrange(2**16)]), 8)})
+    # every history has every kind of call (and, when allowed, one failing toy-extension draw)
+    have = {o["op"] for o in ops}
+    if "draw" not in have:
+        ops.append({"op": "draw", "deg": 1})
+    if "ints" not in have:
+        ops.append({"op": "ints", "n": 3, "size": 16, "nonce": le(rng.choice(NONCES), 8)})
+    if "lz" not in have:
+        ops.append({"op": "lz", "nonce": le(rng.choice(NONCES), 8)})
+    if toy and err_draws > 0 and draws == 0:
+        ops.insert(rng.randrange(len(ops) + 1), {"op": "draw", "deg": 2})
     # run B replaces the digest of one reseed call; make sure there is one, not at the very end
     idx = [i for i, o in enumerate(ops) if o["op"] == "reseed" and i < len(ops) - 2]
     if not idx:
@@ -204,7 +214,7 @@ def run(ck, tier):
     binary = vf.build_harness("hashcoin")
     thorough = tier == "thorough"
     design_level(ck, thorough)
-    per_combo = 6 if thorough else 1
+    per_combo = 5 if thorough else 1
     maxlen = 30 if thorough else 16
     hists, hid = [], 0
     ntoy = 0
@@ -221,6 +231,14 @@ def run(ck, tier):
              "ops": [{"op": "reseed", "data": [1]}, {"op": "ints", "n": 0, "size": 8, "nonce": le(0, 8)},
                      {"op": "draw", "deg": 1}],
              "div": 2, "alt": [2]}]
+    if thorough:
+        # exactly 1000 integers is the most one call can return; 1001 is the documented error
+        hid += 1
+        hists.append({"hid": hid, "h": "sha3", "f": "f64", "seed": [le(5, 8)],
+                      "ops": [{"op": "reseed", "data": [9]}, {"op": "ints", "n": 1000, "size": 1024, "nonce": le(7, 8)},
+                              {"op": "draw", "deg": 2}, {"op": "ints", "n": 1001, "size": 2048, "nonce": le(2**64 - 1, 8)},
+                              {"op": "draw", "deg": 1}, {"op": "lz", "nonce": le(1001, 8)}],
+                      "div": 2, "alt": [10]})
     t0 = time.time()
     events, summary = record(binary, hists, "rec")
     zevents, zsummary = record(binary, zero, "zero")
@@ -229,7 +247,7 @@ def run(ck, tier):
     for e in events:
         key = e["e"] + ("/" + e["r"]["t"] if e["e"] in ("draw", "ints") else "")
         kinds[key] = kinds.get(key, 0) + 1
-    for k in ["new", "reseed", "draw/ok", "draw/err", "ints/ok", "lz", "end"]:
+    for k in ["new", "reseed", "draw/ok", "draw/err", "ints/ok", "lz", "end"] + (["ints/err"] if thorough else []):
         ck.require(kinds.get(k, 0) > 0, "no recorded event of kind " + k)
     retried = sum(1 for e in events if e["e"] == "draw" and e["r"]["t"] == "ok" and len(e["hf"]) >= 2)
     ck.require(retried > 0, "no draw that succeeded after a rejected candidate")
